@@ -33,7 +33,11 @@ pub trait Dim<const N: usize> {
     fn contains_box<T: Sc>(a: Ob<T, N>, b: Ob<T, N>) -> bool;
     fn collides_with_box<T: Sc>(a: Ob<T, N>, b: Ob<T, N>) -> bool;
     fn collision_vector_with_box<T: Sc>(a: Ob<T, N>, b: Ob<T, N>) -> [T; N];
-    fn projected_point<T: Sc>(a: Ob<T, N>, p: [T; N]) -> [T; N];
+    fn projected_point<T: Sc>(a: Ob<T, N>, p: [T; N]) -> [T; N] {
+        Self::try_projected_point(a, p).expect("projected_point: the element type does not implement vek::ops::Clamp")
+    }
+    /// None when `projected_point` does not exist for the element type (no `Clamp` impl)
+    fn try_projected_point<T: Sc>(a: Ob<T, N>, p: [T; N]) -> Option<[T; N]>;
     fn distance_to_point<S: Dom>(a: Ob<S, N>, p: [S; N]) -> S;
     /// split_at_<axis k>
     fn split<T: Sc>(a: Ob<T, N>, k: usize, sp: T) -> [Ob<T, N>; 2];
@@ -74,7 +78,7 @@ macro_rules! impl_dim {
         axes ($(($i:tt $p:ident $e:ident $split:ident))+),
         $contains_aab:ident $collides_aab:ident $cv_aab:ident
         $contains_rect:ident $collides_rect:ident $cv_rect:ident
-        $into_rect:ident $into_aab:ident,
+        $into_rect:ident $into_aab:ident $proj:ident,
         project |$pa:ident| $project:expr
     ) => {
         pub struct $D;
@@ -174,8 +178,8 @@ macro_rules! impl_dim {
             fn collision_vector_with_box<T: Sc>(a: Ob<T, $N>, b: Ob<T, $N>) -> [T; $N] {
                 Self::va(Self::b(a).$cv_aab(Self::b(b)))
             }
-            fn projected_point<T: Sc>(a: Ob<T, $N>, p: [T; $N]) -> [T; $N] {
-                Self::va(Self::b(a).projected_point(Self::v(p)))
+            fn try_projected_point<T: Sc>(a: Ob<T, $N>, p: [T; $N]) -> Option<[T; $N]> {
+                T::$proj(a, p)
             }
             fn distance_to_point<S: Dom>(a: Ob<S, $N>, p: [S; $N]) -> S {
                 Self::b(a).distance_to_point(Self::v(p))
@@ -292,7 +296,7 @@ impl_dim! {
     axes ((0 x w split_at_x) (1 y h split_at_y)),
     contains_aabr collides_with_aabr collision_vector_with_aabr
     contains_rect collides_with_rect collision_vector_with_rect
-    into_rect into_aabr,
+    into_rect into_aabr project2,
     project |_a| None
 }
 impl_dim! {
@@ -300,9 +304,18 @@ impl_dim! {
     axes ((0 x w split_at_x) (1 y h split_at_y) (2 z d split_at_z)),
     contains_aabb collides_with_aabb collision_vector_with_aabb
     contains_rect3 collides_with_rect3 collision_vector_with_rect3
-    into_rect3 into_aabb,
+    into_rect3 into_aabb project3,
     project |a| {
         let r: Aabr<T> = Aabr::from(D3::b(a));
         Some([[r.min.x, r.min.y], [r.max.x, r.max.y]])
     }
+}
+
+/// `Aabr::projected_point` for an element type with vek's `Clamp`
+pub fn proj2<T: Copy + vek::ops::Clamp>(a: Ob<T, 2>, p: [T; 2]) -> [T; 2] {
+    D2::va(D2::b(a).projected_point(D2::v(p)))
+}
+/// `Aabb::projected_point` for an element type with vek's `Clamp`
+pub fn proj3<T: Copy + vek::ops::Clamp>(a: Ob<T, 3>, p: [T; 3]) -> [T; 3] {
+    D3::va(D3::b(a).projected_point(D3::v(p)))
 }
